@@ -8,31 +8,23 @@ arbitrary interleavings of watch / unwatch calls, responses from any server with
 resources, watch-expiry events and stream failures), with no bound on lengths or on the number of servers,
 resources and watchers.
 -/
+/-
+Vocabulary (defined next to their induction lemmas in GrpcProofs/Lemmas/XdsAuth.lean):
+* `FreshRun a hist`    every `watch` event of the history brings a watcher that is not registered at that moment
+* `Accepted hist k c`  some response in `hist` carried resource `k` with content `c` and the decoder accepted it
+* `NoDupRun a G hist`  along `hist`, every watcher's callbacks (in order) pass `Spec.okSeq` starting from its
+                       record in `G` (`Spec.WG`: content of the last ResourceChanged unless a ResourceError came
+                       after it, and the error of the last NACK reported since) — the same `okSeq`/`WG.apply` the
+                       monitor runs on the implementation's callback log
+* `ghostRun a G hist`  those per-watcher records after the history
+* `ledgerRun a L hist` the (server, resource) subscriptions the authority holds after the history: its
+                       subscribe / unsubscribe / release commands applied to a ledger
+-/
 import GrpcProofs.Lemmas.XdsAuth
 namespace GrpcProofs.C43
 open GrpcModel.XdsAuth GrpcModel.XdsAuth.Spec GrpcProofs.Lemmas.XdsAuth
 
 /-! ### ResourceChanged only with a resource the client accepted -/
-
-/-- the decoder accepted content `c` for resource `k` in some response of the history -/
-def Accepted (hist : List AEv) (k : Key) (c : String) : Prop :=
-  ∃ srv gen ver es, AEv.update srv gen k.typ ver es ∈ hist ∧ entLookup es k.name = some (.ok c)
-
-theorem cacheAcc_run (es : List AEv) (a : Auth) (hist : List AEv)
-    (h : ∀ p ∈ a.res, ∀ c, p.2.cache = some c → Accepted hist p.1 c) :
-    ∀ p ∈ (Auth.run a es).res, ∀ c, p.2.cache = some c → Accepted (hist ++ es) p.1 c := by
-  induction es generalizing a hist with
-  | nil => simpa [Auth.run] using h
-  | cons e es ih =>
-    simp only [Auth.run]
-    have := ih (a.step e).auth (hist ++ [e]) (by
-      intro p hp c hc
-      rcases cache_step hp hc with ⟨srv, gen, ver, es', rfl, he⟩ | ⟨q, hq, hk, hqc⟩
-      · exact ⟨srv, gen, ver, es', by simp, he⟩
-      · obtain ⟨srv, gen, ver, es', hm, he⟩ := h q hq c hqc
-        rw [hk] at hm he
-        exact ⟨srv, gen, ver, es', by simp [hm], he⟩)
-    simpa using this
 
 /-- **C43, clause 1.** In every history, a ResourceChanged(c) callback goes to a watcher `w` only for a
     resource `w` watches, with a content `c` that the decoder accepted for that resource in some response of
@@ -51,25 +43,6 @@ theorem changed_only_with_accepted (n : Nat) (ign : List Bool) (hist : List AEv)
 
 /- `FreshRun a hist` (GrpcProofs/Lemmas/XdsAuth.lean): histories in which every `watch` call brings a new watcher
    (as `WatchResource` does: the returned cancel function is tied to that registration). -/
-
-/-- along a history, feed every watcher's callbacks (in order) to `Spec.okSeq`: the per-watcher record
-    `WG` remembers the content of the last ResourceChanged (forgotten on a ResourceError) and whether a NACK
-    was reported since; `okSeq` is false iff some ResourceChanged repeats the held content without a NACK in
-    between. The same `okSeq` / `WG.apply` run in the monitor on the implementation's callback log. -/
-def NoDupRun : Auth → (Nat → WG) → List AEv → Prop
-  | _, _, [] => True
-  | a, G, e :: es =>
-    (∀ w, okSeq (ghost0 G e w) (cbsFor w (a.step e).cbs) = true) ∧
-    NoDupRun (a.step e).auth (ghostStep G e (a.step e).cbs) es
-
-theorem noDupRun_of_inv (es : List AEv) (a : Auth) (G : Nat → WG) (hi : AInv a) (hg : Agree a G)
-    (hf : FreshRun a es) : NoDupRun a G es := by
-  induction es generalizing a G with
-  | nil => trivial
-  | cons e es ih =>
-    obtain ⟨hfe, hfr⟩ := hf
-    have := ghost_step hi hg hfe
-    exact ⟨this.1, ih _ _ (inv_step hi hfe) this.2 hfr⟩
 
 /-- **C43, clause 2.** In every history (any interleaving of watches, unwatches, responses of any server,
     expiries and stream failures) no watcher ever receives ResourceChanged with the content it already holds
@@ -283,17 +256,6 @@ theorem error_kind_matches_cache (n : Nat) (ign : List Bool) (hist : List AEv) (
     ((⟨w, .ambErr er⟩ : Cb) ∈ (a.step e).cbs → ∃ p ∈ (a.step e).auth.res, w ∈ p.2.watchers ∧ p.2.cache.isSome = true) :=
   error_step (inv_run hist _ (inv_init n ign) hf)
 
-/-- the per-watcher records along a history -/
-def ghostRun : Auth → (Nat → WG) → List AEv → (Nat → WG)
-  | _, G, [] => G
-  | a, G, e :: es => ghostRun (a.step e).auth (ghostStep G e (a.step e).cbs) es
-
-theorem agree_run (es : List AEv) (a : Auth) (G : Nat → WG) (hi : AInv a) (hg : Agree a G) (hf : FreshRun a es) :
-    Agree (Auth.run a es) (ghostRun a G es) := by
-  induction es generalizing a G with
-  | nil => exact hg
-  | cons e es ih => exact ih _ _ (inv_step hi hf.1) (ghost_step hi hg hf.1).2 hf.2
-
 /-- **C43, clause 3, the de-duplication reading.** In every reachable state, if a resource's recorded error is
     `t` (so that a further rejection with the same error string is NOT re-delivered), then every watcher of the
     resource has already been told exactly this error: its last NACK callback carried `t` and it received no
@@ -353,19 +315,6 @@ theorem last_unwatch_unsubscribes (a : Auth) (k : Key) (w : Nat) (r : RState) (h
   · refine ⟨fun i hi => ?_, ?_⟩
     · simp only [List.mem_map]; exact ⟨i, hi, rfl⟩
     · intro p hp; simp only [List.mem_filter, decide_eq_true_eq] at hp; simpa using hp.2
-
-/-- the subscriptions held on the channels along a history: the commands applied to a ledger -/
-def ledgerRun : Auth → List (Nat × Key) → List AEv → List (Nat × Key)
-  | _, L, [] => L
-  | a, L, e :: es => ledgerRun (a.step e).auth (ledgerCmds L (a.step e).cmds) es
-
-theorem ledger_run (es : List AEv) (a : Auth) (L : List (Nat × Key)) (hi : AInv a) (hb : Bounded a) (hw : Watched a)
-    (hl : LedgerOK a L) (hf : FreshRun a es) :
-    LedgerOK (Auth.run a es) (ledgerRun a L es) ∧ Watched (Auth.run a es) := by
-  induction es generalizing a L with
-  | nil => exact ⟨hl, hw⟩
-  | cons e es ih =>
-    exact ih _ _ (inv_step hi hf.1) (bounded_step hb) (watched_step hi hw) (ledger_step hi hb hl) hf.2
 
 /-- **C43, clause 6.** In every history over a client with at least one server: the set of (server, resource)
     subscriptions the authority holds (subscribe / unsubscribe / release commands it issued, accumulated) is at
